@@ -191,10 +191,24 @@ impl SubCheck for Fields {
                 let want = ts.abs_diff(T0) <= 30 && *typ == if to_server { 0 } else { 1 };
                 let got;
                 let err;
+                // every other case probes a session that is already in use: a fresh, well-formed datagram of the same session
+                // has been accepted just before (whatever the receiver keeps per session exists by then)
+                let warm = c.seed % 2 == 1;
+                if warm {
+                    out.label("2022-udp session-already-in-use");
+                }
                 if to_server {
                     let ipsks = if c22.is_aes() { keys.client_ipsks.clone() } else { vec![] };
-                    let w = ss2022::encode_udp_client(c22, &keys.client_upsk, &ipsks, &UdpClientPacket { sid: d.u64(), pid: 0, typ: *typ, ts, padding: d.bytes(4), addr: addr.clone(), payload: payload[0].clone(), xnonce: d.bytes(24) });
+                    let sid = d.u64();
                     let sudp = real::server_udp(&cred).unwrap();
+                    if warm {
+                        let w0 = ss2022::encode_udp_client(c22, &keys.client_upsk, &ipsks, &UdpClientPacket { sid, pid: 1, typ: 0, ts: T0, padding: vec![], addr: addr.clone(), payload: b"opens the session".to_vec(), xnonce: d.bytes(24) });
+                        if !matches!(rt::catch(|| sudp.decode(&mut BytesMut::from(&w0[..]))), Ok(Ok(Some(_)))) {
+                            out.label("warm-up-datagram-not-accepted");
+                            return out;
+                        }
+                    }
+                    let w = ss2022::encode_udp_client(c22, &keys.client_upsk, &ipsks, &UdpClientPacket { sid, pid: 2, typ: *typ, ts, padding: d.bytes(4), addr: addr.clone(), payload: payload[0].clone(), xnonce: d.bytes(24) });
                     let mut src = BytesMut::from(&w[..]);
                     match rt::catch(|| sudp.decode(&mut src)) {
                         Err(p) => {
@@ -207,9 +221,17 @@ impl SubCheck for Fields {
                         }
                     }
                 } else {
-                    let w = ss2022::encode_udp_server(c22, &keys.client_upsk, &UdpServerPacket { ssid: d.u64(), pid: 1, typ: *typ, ts, client_sid: d.u64(), padding: d.bytes(4), addr: addr.clone(), payload: payload[0].clone(), xnonce: d.bytes(24) });
                     let cctx = real::ClientUdpCtx::new(&cred).unwrap();
                     let mut cc = cctx.codec();
+                    let (ssid, csid) = (d.u64(), cc.session().client_sid);
+                    if warm {
+                        let w0 = ss2022::encode_udp_server(c22, &keys.client_upsk, &UdpServerPacket { ssid, pid: 1, typ: 1, ts: T0, client_sid: csid, padding: vec![], addr: addr.clone(), payload: b"first reply".to_vec(), xnonce: d.bytes(24) });
+                        if !matches!(rt::catch(|| cc.decode(&mut BytesMut::from(&w0[..]))), Ok(Ok(Some(_)))) {
+                            out.label("warm-up-datagram-not-accepted");
+                            return out;
+                        }
+                    }
+                    let w = ss2022::encode_udp_server(c22, &keys.client_upsk, &UdpServerPacket { ssid, pid: 2, typ: *typ, ts, client_sid: csid, padding: d.bytes(4), addr: addr.clone(), payload: payload[0].clone(), xnonce: d.bytes(24) });
                     let mut src = BytesMut::from(&w[..]);
                     match rt::catch(|| cc.decode(&mut src)) {
                         Err(p) => {
@@ -223,7 +245,7 @@ impl SubCheck for Fields {
                     }
                 }
                 out.label(format!("2022-udp-{} ts:{} type:{}", if to_server { "to-server" } else { "to-client" }, class(*delta, 30), if want || ts.abs_diff(T0) > 30 { "ok" } else { "wrong" }));
-                out.nontrivial(format!("s22udp|{}|{}|{}|{}", c22.name(), to_server, class(*delta, 30), typ.min(&2)));
+                out.nontrivial(format!("s22udp|{}|{}|{}|{}|{}", c22.name(), to_server, class(*delta, 30), typ.min(&2), warm));
                 if got != want {
                     out.fail(
                         format!("handshake-fields/ss-2022/udp-{}/{}", if to_server { "to-server" } else { "to-client" }, if got { "accepted-but-must-be-rejected" } else { "rejected-but-acceptable" }),
